@@ -26,7 +26,9 @@ pub const PROPERTIES: &[&str] = &["C20"];
 
 const ENGINE_TAG: u64 = 0xA07;
 const PROPERTY_TAG: u64 = 20;
-const QUICK_RUNS: u64 = 240_000;
+const QUICK_RUNS: u64 = 2_500_000;
+/// distinct cases / states are counted among the first runs only (memory); a lower bound
+const DISTINCT_TRACKED_RUNS: u64 = 12_000_000;
 const THOROUGH_MIN_ROUNDS: u64 = 20;
 const THOROUGH_MAX_ROUNDS: u64 = 120;
 const THOROUGH_CAP_S: f64 = 2400.0;
@@ -127,9 +129,7 @@ impl Agg {
             bump(&mut self.templates, k, *v);
         }
         self.nontrivial.extend(o.nontrivial);
-        sorted_dedup(&mut self.nontrivial);
         self.states.extend(o.states);
-        sorted_dedup(&mut self.states);
         self.hash = self.hash.wrapping_add(o.hash);
         for (sig, f) in o.findings {
             match self.findings.get_mut(&sig) {
@@ -229,7 +229,9 @@ fn account(
             let Some(inj) = &r.injected[p] else { continue };
             if inj.class != 0 {
                 nontrivial = true;
-                bump(&mut agg.faults, CLASSES[inj.class], 1);
+                if inj.class < N_GRID_CLASSES {
+                    bump(&mut agg.faults, CLASSES[inj.class], 1);
+                }
             }
             let name = if inj.class == 1 {
                 "delay-short"
@@ -255,6 +257,17 @@ fn account(
                 }
                 None => bump(&mut agg.probes, "inputs_of_adversary_only_endpoints", 1),
             }
+        }
+        if r.injected.iter().flatten().any(|i| i.class > 1) {
+            bump(
+                &mut agg.probes,
+                if c.key != 0 {
+                    "keyed_endpoints_with_active_adversary"
+                } else {
+                    "keyless_endpoints_with_active_adversary"
+                },
+                1,
+            );
         }
         // probes on accepting endpoints
         if r.outcome.accepted() {
@@ -304,11 +317,13 @@ fn account(
             }
         }
     }
-    if nontrivial {
-        agg.nontrivial.push(fnv(&abstract_case));
-    }
     let sh = fnv(&state);
-    agg.states.push(sh);
+    if idx < DISTINCT_TRACKED_RUNS {
+        if nontrivial {
+            agg.nontrivial.push(fnv(&abstract_case));
+        }
+        agg.states.push(sh);
+    }
     agg.hash = agg.hash.wrapping_add(mix(&[idx, sh, fnv(&abstract_case)]));
     let mut seen = std::collections::BTreeSet::new();
     for f in findings {
@@ -369,6 +384,14 @@ fn run_range(verif_seed: u64, from: u64, n: u64, offset: u64, stride: u64) -> Ag
         });
         match r {
             Ok((sc, t, Ok(res))) => {
+                for e in &res.eps {
+                    if let Outcome::Panic(p) = &e.outcome
+                        && p.in_harness()
+                    {
+                        agg.harness_errors
+                            .push(format!("run {idx}: harness panic at {}: {}", p.location(), p.message));
+                    }
+                }
                 let findings = judge(&sc, &res);
                 account(&mut agg, idx, seed, &sc, t, &res, &findings);
                 if sample {
@@ -404,6 +427,8 @@ fn run_round(verif_seed: u64, from: u64, n: u64, jobs: u64) -> Agg {
     for p in parts.drain(..) {
         agg.merge(p);
     }
+    sorted_dedup(&mut agg.nontrivial);
+    sorted_dedup(&mut agg.states);
     agg
 }
 
@@ -731,6 +756,8 @@ pub fn check(args: &CheckArgs) -> i32 {
     loop {
         let part = run_round(args.seed, rounds * round, round, args.jobs);
         agg.merge(part);
+        sorted_dedup(&mut agg.nontrivial);
+        sorted_dedup(&mut agg.states);
         rounds += 1;
         if !thorough {
             break;
@@ -856,7 +883,7 @@ pub fn check(args: &CheckArgs) -> i32 {
         "coverage": {
             "evaluations": agg.runs,
             "distinct_nontrivial": agg.nontrivial.len(),
-            "rule": "One evaluation = one world drawn from mix(seed, engine, property, run index): a target connection E0-E1 whose configuration class (keys: none/same/different/one-sided x protocol: same/different x role expectations unmet: 0/1/2) is drawn first and then instantiated with keys {none,K1,K2}, roles {server,worker,hq-server,hq-client} (my role != expected role) and protocol {0,1}; optionally one or two more honest endpoints (other connections of the same parties: replay material and answering oracles); one adversary decision per (endpoint, input position) - 30% of the worlds instantiate one of 8 attack templates, the others carry 0-4 random decisions (57% exactly one) over the 11 active substitution classes. Every endpoint runs the real do_authentication; the adversary's decision is applied when the endpoint waits for that input. A case is non-trivial when at least one non-'deliver' class was applied or a connected pair mismatches; cases are distinct by (all endpoint configurations, applied class + source frame + mutation/forgery kind per input), parameters such as bit positions and delays are not counted. distinct_states counts distinct vectors of (outcome, applied class, provenance) over the endpoints.",
+            "rule": "One evaluation = one world drawn from mix(seed, engine, property, run index): a target connection E0-E1 whose configuration class (keys: none/same/different/one-sided x protocol: same/different x role expectations unmet: 0/1/2) is drawn first and then instantiated with keys {none,K1,K2}, roles {server,worker,hq-server,hq-client} (my role != expected role) and protocol {0,1}; optionally one or two more honest endpoints (other connections of the same parties: replay material and answering oracles); one adversary decision per (endpoint, input position) - 30% of the worlds instantiate one of 8 attack templates, the others carry 0-4 random decisions (57% exactly one) over the 11 active substitution classes. Every endpoint runs the real do_authentication; the adversary's decision is applied when the endpoint waits for that input. A case is non-trivial when at least one non-'deliver' class was applied or a connected pair mismatches; cases are distinct by (all endpoint configurations, applied class + source frame + mutation/forgery kind per input), parameters such as bit positions and delays are not counted; both distinct counts are taken over the first 12,000,000 runs only (lower bound in the thorough tier). distinct_states counts distinct vectors of (outcome, applied class, provenance) over the endpoints.",
             "samples": agg.samples.values().cloned().collect::<Vec<_>>(),
             "runs_per_hour": (agg.runs as f64 / explore_wall.max(1e-9) * 3600.0) as u64,
             "simulated_time_s": agg.sim_ms / 1000,
